@@ -34,6 +34,10 @@ type c05Case struct {
 	// Two: two tokens reach the same fork one after the other from two start events (the second through a
 	// task whose answer stores the truth assignment Truth2); branches end on their own, no join
 	Two bool `json:"two,omitempty"`
+	// Implicit: one of the two activated branches splits again at a task with two outgoing flows (both lead to the
+	// join); ImplOrder is the order in which a, b, c, d are answered
+	Implicit  bool     `json:"implicit,omitempty"`
+	ImplOrder []string `json:"impl_order,omitempty"`
 }
 
 func (c *c05Case) activated() []int { return c.activatedFor(c.Truth) }
@@ -200,6 +204,22 @@ func c05Cases(tier string, seed uint64) []fw.Case {
 			}
 		}
 	}
+	// a branch that splits again at a task with two outgoing flows
+	names := []string{"a", "b", "c", "d"}
+	for _, perm := range fw.Permutations(4) {
+		pos := map[string]int{}
+		var order []string
+		for i, pi := range perm {
+			pos[names[pi]] = i
+			order = append(order, names[pi])
+		}
+		if pos["b"] > pos["c"] || pos["b"] > pos["d"] {
+			continue
+		}
+		c := c05Case{N: 2, Truth: 3, Implicit: true, ImplOrder: order}
+		c.Name = fmt.Sprintf("implicit-%v", order)
+		cs = append(cs, fw.MkCase("implicit-split", &c))
+	}
 	// two tokens at one fork, one after the other
 	for n := 1; n <= 2; n++ {
 		for _, def := range []bool{false, true} {
@@ -218,6 +238,104 @@ func c05Cases(tier string, seed uint64) []fw.Case {
 		}
 	}
 	return fw.Number(cs)
+}
+
+// c05Implicit: OF -> a -> OJ ; OF -> b -> {c, d} -> OJ ; OJ -> tj -> end. Whatever the order in which a, b, c, d
+// finish: by the time every token has arrived the join has released exactly one token, never a second one,
+// and the instance completes.
+func c05Implicit(c *c05Case, env *fw.Env, v *fw.V) {
+	g := gen.NewGraph("c05i")
+	s := g.Add(gen.Start, "start", "")
+	of := g.Add(gen.Or, "OF", "")
+	oj := g.Add(gen.Or, "OJ", "")
+	g.Connect(s, of, nil)
+	ts := map[string]*gen.Node{}
+	for _, n := range []string{"a", "b", "c", "d", "tj"} {
+		ts[n] = g.Add(gen.Task, n, "")
+	}
+	tr := &gen.Cond{Kind: "const", Lit: true}
+	g.Connect(of, ts["a"], tr)
+	g.Connect(of, ts["b"], tr)
+	g.Connect(ts["a"], oj, nil)
+	g.Connect(ts["b"], ts["c"], nil)
+	g.Connect(ts["b"], ts["d"], nil)
+	g.Connect(ts["c"], oj, nil)
+	g.Connect(ts["d"], oj, nil)
+	g.Connect(oj, ts["tj"], nil)
+	e := g.Add(gen.End, "end", "")
+	g.Connect(ts["tj"], e, nil)
+	defs, _, err := step.Parse(g)
+	if err != nil {
+		v.Inconclusive("parse", "%v", err)
+		return
+	}
+	perturb.Off()
+	in, err := drive.New(env.Label, defs, drive.Opts{ExtraSubs: 1})
+	if err != nil {
+		v.Violate("new-process-error", "error", "%v", err)
+		return
+	}
+	defer in.Cancel()
+	quiet := func(what string) bool {
+		q := in.Quiesce(step.Watchdog)
+		v.Add("qpoints", 1)
+		if !q.Quiescent {
+			v.Inconclusive("watchdog", "no quiescent point %s: %v", what, quiesce.Summary(q.Gs))
+			return false
+		}
+		return true
+	}
+	if err := in.Start(); err != nil {
+		v.Violate("start-error", "error", "%v", err)
+		return
+	}
+	if !quiet("after start") {
+		return
+	}
+	for i, n := range c.ImplOrder {
+		var req *drive.Req
+		for _, r := range in.Pending() {
+			if r.Act == n {
+				req = r
+			}
+		}
+		if req == nil {
+			v.Violate("fork-branches", "implicit-split", "task %s is not pending at step %d of %v (pending %v)", n, i, c.ImplOrder, in.PendingActs())
+			v.Log = in.Tail(40)
+			return
+		}
+		in.Answer(req, bpmn.DoWithResults(nil))
+		if !quiet("after answering " + n) {
+			return
+		}
+		if got := in.Count("Task", "tj"); got > 1 {
+			v.Violate("join-twice", "implicit-split", "the task behind the join was requested %d times after %v", got, c.ImplOrder[:i+1])
+			v.Log = in.Tail(40)
+			return
+		}
+		if got := in.Count("Task", "tj"); got == 1 && i == 0 {
+			v.Violate("join-early", "implicit-split", "the join released after only %v was answered", c.ImplOrder[:1])
+			return
+		}
+	}
+	if got := in.Count("Task", "tj"); got != 1 {
+		v.Violate("join-late", "implicit-split", "every token of the fork has arrived (order %v) but the task behind the join was requested %d times", c.ImplOrder, got)
+		v.Log = in.Tail(40)
+		return
+	}
+	for _, r := range in.Pending() {
+		in.Answer(r, bpmn.DoWithResults(nil))
+	}
+	if !quiet("after answering the task behind the join") {
+		return
+	}
+	if got := in.Count("Task", "tj"); got != 1 {
+		v.Violate("join-twice", "implicit-split", "the task behind the join was requested %d times in total", got)
+	}
+	if n := in.Count("CeaseFlow", ""); n != 1 {
+		v.Violate("not-complete", "implicit-split", "everything answered (order %v) but %d cease-flow traces", c.ImplOrder, n)
+		v.Log = in.Tail(40)
+	}
 }
 
 // c05Two: s1 -> XM ; s2 -> hold -> XM ; XM -> OF (inclusive fork) -> b_i -> own end events. The first token is
@@ -604,7 +722,9 @@ func init() {
 			}
 			for i := 0; i < reps && !v.Violated(); i++ {
 				fw.Rep(env, i, func(env *fw.Env) {
-					if cc.Two {
+					if cc.Implicit {
+						c05Implicit(&cc, env, v)
+					} else if cc.Two {
 						c05Two(&cc, env, v)
 					} else {
 						c05Run(&cc, env, v)
